@@ -484,6 +484,11 @@ def run(ctx):
         framlib.mc(ctx, ["scanner", "readline"], 6, 0, caps=(0, 3), live=True, workers=6)
         framlib.mc(ctx, ["scanner", "readline"], 7, 0, caps=(0, 4), live=False, workers=6)
     framlib.nonvacuity(ctx, ["scanner", "readline"], framlib.LINE_MUTANTS)
+    # the reader that dispatched every ReadLine slice by itself (the pinned AMQP input, now the deviation isprefix_ignored)
+    # met only the relaxed statement of FramingOps (AcceptableC: an empty line may follow a line that fills the buffer)
+    if not os.environ.get("VERIF_DEV_SKIP_MC"):
+        ctx.tlc("Framing", "Framing_pinned.cfg", workers=4, timeout=1500, count=False,
+                consts=dict(MaxLen=ctx.pick(4, 5), MaxLenF=0, Readers={"readline"}, Caps={0, 3}, Mutants={"isprefix_ignored"}))
     # 2. cases with expectations from TLC
     exh = gen_cases(ctx, ctx.pick(5, 7))
     sim = sim_cases(ctx, ctx.pick(500, 5000), 8, ctx.pick(40, 60))
